@@ -41,6 +41,22 @@
 #include <list>
 #include <new>
 #include <sys/time.h>
+#ifndef FS_EXT      // 1: the round-3 operations (streams in general, containers, variant / any payloads, other fixed-string types)
+#define FS_EXT 0
+#endif
+#ifndef FS_JSON     // 1: xjson.hpp conversions (needs nlohmann_json; char only)
+#define FS_JSON 0
+#endif
+#if FS_EXT
+#include <map>
+#include <unordered_map>
+#include <xtl/xvariant.hpp>
+#include <xtl/xany.hpp>
+#endif
+#if FS_JSON
+#include <nlohmann/json.hpp>
+#include <xtl/xjson.hpp>
+#endif
 
 #define FS_STR_(x) #x
 #define FS_STR(x) FS_STR_(x)
@@ -56,6 +72,7 @@ using fs = xtl::xbasic_fixed_string<CT, N, FS_STRLEN ? xtl::buffer : (xtl::buffe
 #endif
 using size_type = fs::size_type;
 using sstr = std::basic_string<CT>;
+using RIT = fs::reverse_iterator;      // reverse iterators over the object's own characters (source kind "selfrit")
 static const size_type NPOS = fs::npos;
 static const long long DFLT = -2;
 
@@ -84,6 +101,10 @@ static size_type P(long long x) { return x == -1 ? NPOS : size_type(x); }
 static long long posval(size_type p) { return p == NPOS ? -1 : (p > (size_type)1000000000 ? -3 : (long long)p); }
 
 // ------------------------------------------------------------------ frames
+#ifndef FS_PAGE     // 1: the object ends where an inaccessible page begins; 2: it begins where one ends (see below)
+#define FS_PAGE 0
+#endif
+#if !FS_PAGE
 struct frame
 {
     static constexpr std::size_t G = 32;
@@ -102,6 +123,7 @@ struct frame
         delete[] raw;
     }
     fs* obj() { return reinterpret_cast<fs*>(raw + G); }
+    unsigned char* cells() { return raw + G; }
     bool guards_ok() const
     {
         for (std::size_t i = 0; i < G; ++i)
@@ -109,6 +131,58 @@ struct frame
         return true;
     }
 };
+#else
+// C02, thorough tier: the object lies directly against a PROT_NONE page, so that a single stray READ (or write) one
+// character beyond the object - which guard bytes cannot see and AddressSanitizer does not see inside an mmap'ed
+// region - is a SIGSEGV, i.e. a Crash event in the trace.
+//   FS_PAGE == 1:  [ ... | guard[32] | object ][ PROT_NONE page ]     reads / writes behind the object
+//   FS_PAGE == 2:  [ PROT_NONE page ][ object | guard[32] | ... ]     reads / writes before the object
+#include <sys/mman.h>
+#include <unistd.h>
+struct frame
+{
+    static constexpr std::size_t G = 32;
+    unsigned char* base;
+    unsigned char* objp;
+    unsigned char* gptr;
+    std::size_t maplen;
+    bool live = false;
+    frame()
+    {
+        std::size_t pg = std::size_t(sysconf(_SC_PAGESIZE));
+        std::size_t body = ((G + sizeof(fs) + pg - 1) / pg) * pg;
+        maplen = body + pg;
+        void* m = mmap(nullptr, maplen, PROT_READ | PROT_WRITE, MAP_PRIVATE | MAP_ANONYMOUS, -1, 0);
+        if (m == MAP_FAILED) { std::fprintf(stderr, "mmap failed\n"); std::exit(4); }
+        base = static_cast<unsigned char*>(m);
+        std::memset(base, 0x5A, maplen);
+#if FS_PAGE == 1
+        if (mprotect(base + body, pg, PROT_NONE) != 0) std::exit(4);
+        objp = base + body - sizeof(fs);
+        gptr = objp - G;
+#else
+        if (mprotect(base, pg, PROT_NONE) != 0) std::exit(4);
+        objp = base + pg;
+        gptr = objp + sizeof(fs);
+#endif
+        std::memset(gptr, 0xA5, G);
+        std::memset(objp, 0xEE, sizeof(fs));
+    }
+    ~frame()
+    {
+        if (live) obj()->~fs();
+        munmap(base, maplen);
+    }
+    fs* obj() { return reinterpret_cast<fs*>(objp); }
+    unsigned char* cells() { return objp; }
+    bool guards_ok() const
+    {
+        for (std::size_t i = 0; i < G; ++i)
+            if (gptr[i] != 0xA5) return false;
+        return true;
+    }
+};
+#endif
 
 static std::unique_ptr<frame> slot[2];
 
@@ -225,7 +299,43 @@ static std::string proj(int k)
     else { fwd.push_back(-9); rev.push_back(-9); }     // size() > N: the iterator range is not inside the object, do not walk it
     o.kints("fwd", fwd).kints("rev", rev);
     o.kb("g", slot[k]->guards_ok());
+    // round 3: a second, independent route to every observable (nothing is read outside the object)
+    bool inside = FS_REF || n <= N;
+    o.kv("cd", posval(size_type(cx.cend() - cx.cbegin())));
+    o.kv("rd", (cx.rend() - cx.rbegin()) == (cx.crend() - cx.crbegin()) ? posval(size_type(x.rend() - x.rbegin())) : -4);
+    long long slen = -1, rts = -1, rtn = -1;
+    if (inside)
+    {
+        bool nul = false;
+        for (std::size_t i = 0; i <= n && !nul; ++i) nul = cx.c_str()[i] == CT(0);     // a terminator inside the object
+        if (nul)
+        {
+            slen = (long long)fs::traits_type::length(cx.c_str());                        // std::strlen
+            sstr viaz(cx.c_str());                                                        // round trip through a C string
+            rts = (long long)viaz.size();
+            for (std::size_t i = 0; i < viaz.size(); ++i) if (code(viaz[i]) != chars[i]) rts = -5;
+        }
+        sstr vian(cx.data(), n);                                                          // round trip (pointer, size)
+        rtn = (long long)vian.size();
+        for (std::size_t i = 0; i < vian.size() && i < chars.size(); ++i) if (code(vian[i]) != chars[i]) rtn = -5;
+    }
+    o.kv("slen", slen).kv("rts", rts).kv("rtn", rtn);
+    o.kb("cp", cx.c_str() == cx.data() && cx.data() == x.data());
+    o.kb("ib", x.begin() == cx.cbegin() && cx.begin() == cx.cbegin() && x.end() == cx.cend() && cx.end() == cx.cend()
+               && (n == 0 || &*cx.cbegin() == cx.data()) && (!inside || std::size_t(cx.cend() - cx.cbegin()) == n));
+    o.kb("rb", x.rbegin().base() == x.end() && x.rend().base() == x.begin() && cx.rbegin().base() == cx.cend() && cx.crend().base() == cx.cbegin()
+               && cx.crbegin().base() == cx.cend() && cx.rend().base() == cx.cbegin());
     return o.obj();
+}
+
+// operator== for all pairs of the two objects (row = left operand); -1: an object reports a size beyond its capacity
+static std::string eqmatrix()
+{
+    const fs& a = *slot[0]->obj();
+    const fs& b = *slot[1]->obj();
+    if (!FS_REF && (a.size() > N || b.size() > N)) return "[[-1,-1],[-1,-1]]";
+    auto t = [](bool v) { return v ? "true" : "false"; };
+    return std::string("[[") + t(a == a) + "," + t(a == b) + "],[" + t(b == a) + "," + t(b == b) + "]]";
 }
 
 static std::string hashlimbs(int k)
@@ -249,6 +359,48 @@ static std::string rawcells(int k)
     return vj::ints(l);
 #endif
 }
+
+#if FS_EXT
+// ------------------------------------------------------------------ round 3: other fixed-string types, payloads, containers
+static constexpr std::size_t FIELD_N = sizeof(CT) == 1 ? 300 : sizeof(CT) == 2 ? 65536 : N + 9;   // separate length field where the type has one
+using fs_big = xtl::xbasic_fixed_string<CT, 2 * N + 7, xtl::buffer | xtl::store_size, xtl::string_policy::silent_error>;
+using fs_strlen = xtl::xbasic_fixed_string<CT, N + 3, std::is_same<CT, char>::value ? int(xtl::buffer) : int(xtl::buffer | xtl::store_size), xtl::string_policy::throwing_error>;
+using fs_field = xtl::xbasic_fixed_string<CT, FIELD_N, xtl::buffer | xtl::store_size, xtl::string_policy::throwing_error>;
+
+template <class S> static std::string strval_of(const S& r, std::size_t cap)
+{
+    vj::out o;
+    std::vector<long long> ch;
+    std::size_t n = r.size();
+    for (std::size_t i = 0; i < std::min(n, cap + 1); ++i) ch.push_back(code(r.data()[i]));
+    o.kints("chars", ch);
+    o.kv("size", posval(n));
+    o.kv("term", n <= cap ? code(r.data()[n]) : -1);
+    return o.obj();
+}
+#if !FS_REF
+template <class D> static std::string cross_to(const fs& a, const std::string& route)
+{
+    std::unique_ptr<D> d;
+    if (route == "z") d.reset(new D(a.c_str()));
+    else if (route == "pn") d.reset(new D(a.data(), a.size()));
+    else if (route == "it") d.reset(new D(a.begin(), a.end()));
+    else if (route == "str") { sstr s = a; d.reset(new D(s)); }
+    else bad("cross route", route);
+    return strval_of(*d, d->max_size());
+}
+template <class D> static std::string cross_from(fs& a, const std::string& route, const source& src)
+{
+    auto q = src.exact();
+    std::unique_ptr<D> d(new D(q.get(), src.n()));
+    if (route == "z") return selfval(a.assign(d->c_str()), a);
+    if (route == "pn") return selfval(a.assign(d->data(), d->size()), a);
+    if (route == "it") return selfval(a.assign(d->begin(), d->end()), a);
+    if (route == "str") { sstr s = *d; return selfval(a = s, a); }
+    bad("cross route", route);
+}
+#endif
+#endif
 
 // ------------------------------------------------------------------ one call
 template <class S> static size_type findcall(const S& fam, const fs& A, const fs& B, const std::string& sk, const source& src, long long pos)
@@ -331,6 +483,9 @@ static std::string step(const vj::value& e)
             else if (sk() == "il") with_il(src.v, [&](std::initializer_list<CT> l) { construct(k, [&](void* m) { new (m) fs(l); }); });
             else if (sk() == "itv") { auto c = src.vec(); construct(k, [&](void* m) { new (m) fs(c.begin(), c.end()); }); }
             else if (sk() == "itl") { auto c = src.lst(); construct(k, [&](void* m) { new (m) fs(c.begin(), c.end()); }); }
+            else if (sk() == "itp") { auto q = src.exact(); const CT* f = q.get(); construct(k, [&](void* m) { new (m) fs(f, f + src.n()); }); }
+            else if (sk() == "itpm") { auto q = src.exact(); CT* f = q.get(); construct(k, [&](void* m) { new (m) fs(f, f + src.n()); }); }
+            else if (sk() == "its") { sstr s = src.str(); construct(k, [&](void* m) { new (m) fs(s.begin(), s.end()); }); }
             else if (sk() == "str") { sstr s = src.str(); construct(k, [&](void* m) { new (m) fs(s); }); }
             else if (sk() == "obj") construct(k, [&](void* m) { new (m) fs(B()); });
             else if (sk() == "objm") construct(k, [&](void* m) { new (m) fs(std::move(B())); });
@@ -343,7 +498,7 @@ static std::string step(const vj::value& e)
             source cells(a.at("cells"));
             if (cells.n() != N + 1) bad("Overlay cell count", std::to_string(cells.n()));
             std::unique_ptr<frame> nf(new frame());
-            std::memcpy(nf->raw + frame::G, cells.v.data(), sizeof(fs));
+            std::memcpy(nf->cells(), cells.v.data(), sizeof(fs));
             nf->live = true;
             slot[k] = std::move(nf);
 #else
@@ -379,6 +534,11 @@ static std::string step(const vj::value& e)
             else if (sk() == "selfp") val = selfval(A().assign(CA().data() + src.off(), src.cnt()), A());
             else if (sk() == "selfz") val = selfval(asg ? A().assign(CA().c_str() + src.off()) : (A() = CA().c_str() + src.off()), A());
             else if (sk() == "selfit") val = selfval(A().assign(CA().begin() + std::ptrdiff_t(src.off()), CA().begin() + std::ptrdiff_t(src.off() + src.cnt())), A());
+            else if (sk() == "selfmit") val = selfval(A().assign(A().begin() + std::ptrdiff_t(src.off()), A().begin() + std::ptrdiff_t(src.off() + src.cnt())), A());
+            else if (sk() == "selfrit") val = selfval(A().assign(RIT(A().begin() + std::ptrdiff_t(src.off() + src.cnt())), RIT(A().begin() + std::ptrdiff_t(src.off()))), A());
+            else if (sk() == "itp") { auto q = src.exact(); const CT* f = q.get(); val = selfval(A().assign(f, f + src.n()), A()); }
+            else if (sk() == "itpm") { auto q = src.exact(); CT* f = q.get(); val = selfval(A().assign(f, f + src.n()), A()); }
+            else if (sk() == "its") { sstr s = src.str(); val = selfval(A().assign(s.begin(), s.end()), A()); }
             else bad("AssignSeq kind", sk());
         }
         else if (op == "At") val = chval(num("c") ? CA().at(P(num("i"))) : A().at(P(num("i"))));
@@ -480,6 +640,11 @@ static std::string step(const vj::value& e)
             else if (sk() == "itv") { auto c = src.vec(); auto r = A().insert(pos, c.begin(), c.end()); val = itval(r - A().begin()); }
             else if (sk() == "itl") { auto c = src.lst(); auto r = A().insert(pos, c.begin(), c.end()); val = itval(r - A().begin()); }
             else if (sk() == "selfit") { auto f2 = CA().begin() + std::ptrdiff_t(src.off()); auto r = A().insert(pos, f2, f2 + std::ptrdiff_t(src.cnt())); val = itval(r - A().begin()); }
+            else if (sk() == "selfmit") { auto f2 = A().begin() + std::ptrdiff_t(src.off()); auto r = A().insert(pos, f2, f2 + std::ptrdiff_t(src.cnt())); val = itval(r - A().begin()); }
+            else if (sk() == "selfrit") { auto l2 = A().begin() + std::ptrdiff_t(src.off()); auto r = A().insert(pos, RIT(l2 + std::ptrdiff_t(src.cnt())), RIT(l2)); val = itval(r - A().begin()); }
+            else if (sk() == "itp") { auto q = src.exact(); const CT* f2 = q.get(); auto r = A().insert(pos, f2, f2 + src.n()); val = itval(r - A().begin()); }
+            else if (sk() == "itpm") { auto q = src.exact(); CT* f2 = q.get(); auto r = A().insert(pos, f2, f2 + src.n()); val = itval(r - A().begin()); }
+            else if (sk() == "its") { sstr s2 = src.str(); auto r = A().insert(pos, s2.begin(), s2.end()); val = itval(r - A().begin()); }
             else bad("InsertItSeq kind", sk());
         }
         else if (op == "Erase")
@@ -506,6 +671,11 @@ static std::string step(const vj::value& e)
             else if (sk() == "selfp") val = selfval(A().append(CA().data() + src.off(), src.cnt()), A());
             else if (sk() == "selfz") val = selfval(app ? A().append(CA().c_str() + src.off()) : (A() += CA().c_str() + src.off()), A());
             else if (sk() == "selfit") { auto f2 = CA().begin() + std::ptrdiff_t(src.off()); val = selfval(A().append(f2, f2 + std::ptrdiff_t(src.cnt())), A()); }
+            else if (sk() == "selfmit") { auto f2 = A().begin() + std::ptrdiff_t(src.off()); val = selfval(A().append(f2, f2 + std::ptrdiff_t(src.cnt())), A()); }
+            else if (sk() == "selfrit") { auto l2 = A().begin() + std::ptrdiff_t(src.off()); val = selfval(A().append(RIT(l2 + std::ptrdiff_t(src.cnt())), RIT(l2)), A()); }
+            else if (sk() == "itp") { auto q = src.exact(); const CT* f2 = q.get(); val = selfval(A().append(f2, f2 + src.n()), A()); }
+            else if (sk() == "itpm") { auto q = src.exact(); CT* f2 = q.get(); val = selfval(A().append(f2, f2 + src.n()), A()); }
+            else if (sk() == "its") { sstr s2 = src.str(); val = selfval(A().append(s2.begin(), s2.end()), A()); }
             else bad("AppendSeq kind", sk());
         }
         else if (op == "AppendSub")
@@ -584,6 +754,11 @@ static std::string step(const vj::value& e)
             else if (sk() == "selfp") val = selfval(A().replace(f, l, CA().data() + src.off(), src.cnt()), A());
             else if (sk() == "selfz") val = selfval(A().replace(f, l, CA().c_str() + src.off()), A());
             else if (sk() == "selfit") { auto f2 = CA().begin() + std::ptrdiff_t(src.off()); val = selfval(A().replace(f, l, f2, f2 + std::ptrdiff_t(src.cnt())), A()); }
+            else if (sk() == "selfmit") { auto f2 = A().begin() + std::ptrdiff_t(src.off()); val = selfval(A().replace(f, l, f2, f2 + std::ptrdiff_t(src.cnt())), A()); }
+            else if (sk() == "selfrit") { auto l2 = A().begin() + std::ptrdiff_t(src.off()); val = selfval(A().replace(f, l, RIT(l2 + std::ptrdiff_t(src.cnt())), RIT(l2)), A()); }
+            else if (sk() == "itp") { auto q = src.exact(); const CT* f2 = q.get(); val = selfval(A().replace(f, l, f2, f2 + src.n()), A()); }
+            else if (sk() == "itpm") { auto q = src.exact(); CT* f2 = q.get(); val = selfval(A().replace(f, l, f2, f2 + src.n()), A()); }
+            else if (sk() == "its") { sstr s2 = src.str(); val = selfval(A().replace(f, l, s2.begin(), s2.end()), A()); }
             else bad("ReplaceIt kind", sk());
         }
         else if (op == "ReplaceItFill")
@@ -649,6 +824,107 @@ static std::string step(const vj::value& e)
             bad("op for this configuration", op);
 #endif
         }
+#if FS_EXT
+        else if (op == "MapKey")
+        {
+            const fs& x = CA(); const fs& y = B();
+            std::map<fs, int> m; m[x] = 1; m[y] = 2;
+            std::unordered_map<fs, int> u; u[x] = 1; u[y] = 2;
+            vj::out o2;
+            o2.kv("msz", (long long)m.size()).kv("mval", m.find(x) == m.end() ? -1 : m.find(x)->second);
+            o2.kv("usz", (long long)u.size()).kv("uval", u.find(x) == u.end() ? -1 : u.find(x)->second);
+            o2.kv("first", m.begin()->first.compare(x) == 0 ? 1 : 2);
+            o2.kb("heq", std::hash<fs>()(x) == std::hash<fs>()(y));
+            val = o2.obj();
+        }
+#if !FS_REF
+        else if (op == "Payload")
+        {
+            const std::string& kind = a.str("kind");
+            using var_t = xtl::variant<int, fs>;
+            if (kind == "variant_copy") { var_t v(CA()); var_t w(v); val = strval(xtl::get<fs>(w), true); }
+            else if (kind == "variant_move") { var_t v(CA()); var_t w(std::move(v)); val = strval(xtl::get<fs>(w), true); }
+            else if (kind == "variant_assign") { var_t v(CA()); var_t w(3); w = v; var_t z(7); z = std::move(w); val = strval(xtl::get<fs>(z), true); }
+            else if (kind == "variant_emplace") { var_t w(3); w.template emplace<fs>(CA()); w = 4; w = CA(); val = strval(xtl::get<fs>(w), true); }
+            else if (kind == "any_copy") { xtl::any x(CA()); xtl::any y(x); val = strval(xtl::any_cast<fs>(y), true); }
+            else if (kind == "any_move") { xtl::any x(CA()); xtl::any y(std::move(x)); val = strval(xtl::any_cast<const fs&>(y), true); }
+            else if (kind == "any_assign") { xtl::any x(CA()); xtl::any y(1); y = x; xtl::any z; z = std::move(y); val = strval(*xtl::any_cast<fs>(&z), true); }
+            else bad("payload kind", kind);
+        }
+        else if (op == "CrossTo")
+        {
+            const std::string& dst = a.str("dst");
+            if (dst == "big") val = cross_to<fs_big>(CA(), a.str("route"));
+            else if (dst == "strlen") val = cross_to<fs_strlen>(CA(), a.str("route"));
+            else if (dst == "field") val = cross_to<fs_field>(CA(), a.str("route"));
+            else bad("cross dst", dst);
+        }
+        else if (op == "CrossFrom")
+        {
+            source src(a.at("src"));
+            const std::string& dst = a.str("dst");
+            if (dst == "big") val = cross_from<fs_big>(A(), a.str("route"), src);
+            else if (dst == "strlen") val = cross_from<fs_strlen>(A(), a.str("route"), src);
+            else if (dst == "field") val = cross_from<fs_field>(A(), a.str("route"), src);
+            else bad("cross dst", dst);
+        }
+#endif
+#if FS_IO
+        else if (op == "Extract" || op == "GetLineX")
+        {
+            sstr text = source(a.at("text")).str();
+            std::basic_istringstream<CT> is(text);
+            if (op == "Extract")
+            {
+                if (!a.at("skip").b) is.unsetf(std::ios_base::skipws);
+                is.width(std::streamsize(num("w")));
+            }
+            if (!a.at("ok").b) is.setstate(std::ios_base::failbit);
+            using std::getline;
+            if (op == "Extract") is >> A();
+            else if (dflt("delim")) getline(is, A());
+            else getline(is, A(), unit(num("delim")));
+            bool eof = is.eof(), fail = is.fail();
+            long long w = (long long)is.width(), rest = 0;
+            is.clear();
+            while (is.get() != std::char_traits<CT>::eof()) ++rest;
+            vj::out o2;
+            o2.kb("eof", eof).kb("fail", fail).kv("w", w).kv("rest", rest);
+            val = o2.obj();
+        }
+        else if (op == "Put")
+        {
+            std::basic_ostringstream<CT> os;
+            const std::string& adj = a.str("adj");
+            os.width(std::streamsize(num("w")));
+            os.fill(unit(num("fill")));
+            if (adj == "left") os.setf(std::ios_base::left, std::ios_base::adjustfield);
+            else if (adj == "right") os.setf(std::ios_base::right, std::ios_base::adjustfield);
+            else if (adj == "internal") os.setf(std::ios_base::internal, std::ios_base::adjustfield);
+            os << CA();
+            sstr s2 = os.str();
+            std::vector<long long> cs; for (auto x : s2) { if (cs.size() > 2 * N + 40) break; cs.push_back(code(x)); }
+            val = "{\"chars\":" + vj::ints(cs) + ",\"size\":" + std::to_string(posval(s2.size())) + ",\"w\":" + std::to_string((long long)os.width()) + "}";
+        }
+#endif
+#if FS_JSON
+        else if (op == "JsonOut")
+        {
+            nlohmann::json j = CA();                       // to_json of xjson.hpp (found by ADL)
+            bool isstr = j.is_string();
+            std::string got = isstr ? j.get<std::string>() : std::string();
+            fs back;                                       // ... and the way back into a fresh object
+            if (isstr) xtl::from_json(j, back);
+            std::vector<long long> cs; for (auto x : got) { if (cs.size() > N + 8) break; cs.push_back(code(CT(x))); }
+            val = "{\"chars\":" + vj::ints(cs) + ",\"size\":" + std::to_string(posval(isstr && back == CA() ? got.size() : std::size_t(-1))) + ",\"str\":" + (isstr ? "true" : "false") + "}";
+        }
+        else if (op == "JsonIn")
+        {
+            nlohmann::json j = source(a.at("text")).str();
+            xtl::from_json(j, A());
+        }
+#endif
+#endif
         else bad("op", op);
     }
     catch (const std::length_error&) { exc = "length_error"; }
@@ -676,9 +952,23 @@ static void arm_cpu_limit()
     setitimer(ITIMER_VIRTUAL, &t, nullptr);
 }
 
+// XTL_NO_EXCEPTIONS builds: a failing check prints its message and calls std::terminate().  What is observable at that
+// moment (both objects, the guards) is logged as the outcome "terminated" of the call that was running; the process ends.
+static std::string g_head;
+static void on_failed_check()
+{
+    std::string out = g_head + ",\"res\":{\"exc\":\"terminated\",\"val\":[]},\"st\":{\"o\":[" + proj(0) + "," + proj(1) + "],\"eq\":" + eqmatrix() + "}}\n";
+    std::fputs(out.c_str(), stdout);
+    std::fflush(stdout);
+    _exit(0);
+}
+
 int main()
 {
     vj::install_crash_handlers();
+#if defined(XTL_NO_EXCEPTIONS)
+    std::set_terminate(on_failed_check);
+#endif
     std::signal(SIGVTALRM, on_cpu_limit);
     std::ios::sync_with_stdio(false);
     construct(0, [](void* m) { new (m) fs; });
@@ -690,9 +980,10 @@ int main()
         if (line.empty()) continue;
         vj::value e = vj::parse(line);
         arm_cpu_limit();
+        g_head = line.substr(0, line.rfind('}'));
         std::string res = step(e);
-        std::string head = line.substr(0, line.rfind('}'));
-        outbuf = head + ",\"res\":" + res + ",\"st\":{\"o\":[" + proj(0) + "," + proj(1) + "]}";
+        const std::string& head = g_head;
+        outbuf = head + ",\"res\":" + res + ",\"st\":{\"o\":[" + proj(0) + "," + proj(1) + "],\"eq\":" + eqmatrix() + "}";
         if (!lean)
         {
             outbuf += ",\"h\":[" + hashlimbs(0) + "," + hashlimbs(1) + "]";
